@@ -333,7 +333,9 @@ def create_continuous_elements_index(net, start=0, add_df_to_reindex=None, store
     :rtype: pandapipesNet
     """
     add_df_to_reindex = set() if add_df_to_reindex is None else set(add_df_to_reindex)
-    elements = pp_elements(include_res_elements=True, net=net)
+    # result tables follow their element table inside reindex_elements; listing them here as well
+    # would reindex them twice (and in set order: before or after their element table)
+    elements = pp_elements(include_res_elements=False, net=net)
     elements |= add_df_to_reindex
 
     # run reindex_elements() for all elements
